@@ -406,7 +406,7 @@ class Vec3(tuple):
         :returns: Either self or a new vector with the maximum magnitude.
         :rtype: Vec3
         """
-        if self[0] ** 2 + self[1] ** 2 + self[2] ** 2 > max * max * max:
+        if self[0] ** 2 + self[1] ** 2 + self[2] ** 2 > max * max:
             return self.from_magnitude(max)
         return self
 
